@@ -159,11 +159,27 @@ class Ctx:
         n = len(self._pending_units)
         if n == 0:
             return
+        limit = 150 if self.tier == "quick" else 1200  # seconds per unit; beyond that the unit is undecided
         if os.environ.get("PYVC_SERIAL"):
             results = [_child_entry(i) for i in range(n)]
         else:
-            with mp.get_context("fork").Pool(min(procs, n)) as pool:
-                results = pool.map(_child_entry, range(n), chunksize=1)
+            pool = mp.get_context("fork").Pool(min(procs, n))
+            try:
+                asyncs = [pool.apply_async(_child_entry, (i,)) for i in range(n)]
+                results = []
+                t_start = time.time()
+                for i, a_ in enumerate(asyncs):
+                    remaining = max(1.0, limit - (time.time() - t_start)) if i >= procs else limit
+                    try:
+                        results.append(a_.get(timeout=max(remaining, 5.0) if i < procs else limit))
+                    except mp.TimeoutError:
+                        nm = self._pending_units[i][0]
+                        results.append({"obls": [], "units": [{"unit": nm, "status": "undecided", "reason": f"obligation generation exceeded {limit}s"}],
+                                        "undecided": [(nm, f"engine: obligation generation exceeded {limit}s (path explosion?)")], "expectations": [],
+                                        "functions": {}, "trusted": [], "assumptions": [], "notes": []})
+            finally:
+                pool.terminate()
+                pool.join()
         obls, units, und, exps, funcs = [], [], [], [], {}
         for r in results:
             for d in r["obls"]:
